@@ -5,6 +5,7 @@ import (
 	"errors"
 	"fmt"
 	"net"
+	"strings"
 	"sync"
 	"time"
 
@@ -16,12 +17,12 @@ import (
 
 // C15: reattach reaches the same live plugin; test mode never kills the server.
 
-var c15Scenarios = []string{"basic", "multi", "kill-b", "kill-a-then-reattach", "crash-then-reattach", "nothing-listens", "pid-reused", "testmode", "testmode-kill-many"}
+var c15Scenarios = []string{"basic", "second-hop", "multi", "kill-b", "kill-a-then-reattach", "crash-then-reattach", "nothing-listens", "pid-reused", "testmode", "testmode-kill-many", "testmode-second-hop"}
 
 func init() {
 	Register(&Prop{ID: "C15",
 		Meta: Meta{Level: "exploration",
-			Rule: "histories over {start A, write state through A, take ReattachConfig, reattach as B (and C, D, sequentially and concurrently), read state through each, kill B, kill A, crash the plugin, reattach after death, reattach to an address where nothing listens, reattach after the pid was reused by an unrelated process, a second unrelated plugin that must survive}, for net/rpc and gRPC, for simulated plugin processes and for in-process test-mode servers (ServeTestConfig with context cancel and CloseCh); scenarios enumerated x protocol, then seeded schedule noise in reattach/cmd_reattach/pidWait/Kill. Oracle: every reattached client sees A's state and protocol and can dispense; killing a reattached (non-test) client terminates exactly that plugin; reattach with nothing listening or after death fails with ErrProcessNotFound and never signals an unrelated process; in test mode Kill leaves the server answering further clients and it stops, closing CloseCh, only after its context is cancelled",
+			Rule:       "histories over {start A, write state through A, take ReattachConfig, reattach as B (and C, D, sequentially and concurrently), read state through each, kill B, kill A, crash the plugin, reattach after death, reattach to an address where nothing listens, reattach after the pid was reused by an unrelated process, a second unrelated plugin that must survive}, for net/rpc and gRPC, for simulated plugin processes and for in-process test-mode servers (ServeTestConfig with context cancel and CloseCh); scenarios enumerated x protocol, then seeded schedule noise in reattach/cmd_reattach/pidWait/Kill. Oracle: every reattached client sees A's state and protocol and can dispense; killing a reattached (non-test) client terminates exactly that plugin; reattach with nothing listening or after death fails with ErrProcessNotFound and never signals an unrelated process; in test mode Kill leaves the server answering further clients and it stops, closing CloseCh, only after its context is cancelled",
 			Exhaustive: "scenario x protocol"},
 		Plan: func(tier string, seed uint64, stage int, prev []*h.Result) []*k.Spec {
 			if stage > 0 {
@@ -105,7 +106,7 @@ func runC15(r *h.Run) {
 		return !o.Hung
 	}
 
-	if scen == "testmode" || scen == "testmode-kill-many" {
+	if strings.HasPrefix(scen, "testmode") {
 		runC15TestMode(r, proto, scen, ctx, use, kill)
 		return
 	}
@@ -173,6 +174,25 @@ func runC15(r *h.Run) {
 		b := reattachClient(r, proto, rc, "B")
 		checkSees(b, "B")
 		w.Probe("reattach.ok")
+	case "second-hop":
+		// a client built from the reattach configuration of a reattached client
+		b := reattachClient(r, proto, rc, "B")
+		checkSees(b, "B")
+		rc2 := b.ReattachConfig()
+		if rc2 == nil {
+			r.Violate("bad-reattach-config", ctx+" hop=2", "ReattachConfig() of a reattached client is nil")
+			break
+		}
+		b2 := reattachClient(r, proto, rc2, "B2")
+		checkSees(b2, "B2")
+		if !kill(b2, "B2") {
+			return
+		}
+		time.Sleep(3 * time.Second)
+		if plug.Alive() {
+			r.Violate("reattach-kill-ineffective", ctx+" hop=2", "Kill on the second-hop client returned but the plugin process is still running")
+		}
+		bystanderAlive("second-hop")
 	case "multi":
 		var wg sync.WaitGroup
 		cls := []*plugin.Client{reattachClient(r, proto, rc, "B"), reattachClient(r, proto, rc, "C"), reattachClient(r, proto, rc, "D")}
@@ -284,6 +304,19 @@ func runC15TestMode(r *h.Run, proto, scen, ctx string, use func(*plugin.Client, 
 	rounds := 1
 	if scen == "testmode-kill-many" {
 		rounds = 3
+	}
+	if scen == "testmode-second-hop" {
+		// reattach through the configuration a reattached client hands out
+		if rc2 := b.ReattachConfig(); rc2 == nil {
+			r.Violate("bad-reattach-config", ctx+" hop=2", "ReattachConfig() of a test-mode client is nil")
+		} else {
+			b = reattachClient(r, proto, rc2, "B2")
+			if v, err := use(b, "B2", "get", "color"); err != nil && quiet() {
+				r.Violate("reattach-failed", ctx+" client=B2", err.Error())
+			} else if err == nil && v != "teal" {
+				r.Violate("wrong-instance", ctx+" client=B2", v)
+			}
+		}
 	}
 	for i := 0; i < rounds; i++ {
 		if !kill(b, "B") {
